@@ -260,7 +260,7 @@ func init() {
 	// (R) replay of TLC-generated histories (spec -> code)
 	register("qtreplay", func(c *ctx) {
 		qs := &qtQueries{
-			pts:     [][2]int{{0, 0}, {100, 64}, {128, 130}, {250, 256}, {128, 128}, {64, 192}},
+			pts:     [][2]int{{0, 0}, {100, 64}, {128, 130}, {250, 256}, {128, 128}, {64, 192}, {128, 28}}, // (128,28) is exactly 100 from (128,128)
 			ks:      []int{1, 2, 3},
 			mds:     []int{0, 100, 1000},
 			boxes:   [][4]int{{0, 0, 256, 256}, {128, 128, 256, 256}, {0, 0, 128, 128}, {60, 190, 70, 200}, {129, 0, 256, 127}},
@@ -365,6 +365,20 @@ func init() {
 			if m == nil || !m.ranked {
 				for i := 0; i < 4; i++ {
 					qs.pts = append(qs.pts, alphabet[c.rng.Intn(16)], [2]int{off + c.rng.Intn(1025), off + c.rng.Intn(1025)})
+				}
+				// a limit that is exactly the distance between a query point and a stored point ("strictly within")
+			exact:
+				for _, a := range alphabet {
+					for _, b := range alphabet {
+						dx, dy := a[0]-b[0], a[1]-b[1]
+						d2 := dx*dx + dy*dy
+						r := int(math.Round(math.Sqrt(float64(d2))))
+						if d2 > 0 && r*r == d2 && r < 2000 {
+							qs.pts = append(qs.pts, a)
+							qs.mds = append(qs.mds, r)
+							break exact
+						}
+					}
 				}
 			}
 			nbox := 3
